@@ -14,8 +14,9 @@ cp "$SRC/demo_test.go" zz_demo_test.go
 RUN=$(grep -o 'func Test[A-Za-z0-9_]*' zz_demo_test.go | sed 's/func //' | paste -sd'|')
 a=$(go test -vet=off -count=1 -timeout 10m -run "^($RUN)\$" . 2>&1 | tail -3); arc=$?
 echo "A(no patch): $(echo "$a" | tail -1)"
-git apply "$SRC/patch.diff" || { echo "PATCH DOES NOT APPLY"; exit 3; }
+git apply "$SRC/patch.diff" 2>/dev/null || patch -p1 -s -F3 --no-backup-if-mismatch < "$SRC/patch.diff" || { echo "PATCH DOES NOT APPLY"; exit 3; }
 go build ./... || { echo "BUILD FAILS"; exit 3; }
+git diff -- . ':!zz_demo_test.go' > "$SRC/patch.rebased.diff"
 b=$(go test -vet=off -count=1 -timeout 10m -run "^($RUN)\$" . 2>&1 | tail -3)
 echo "B(patch): $(echo "$b" | tail -1)"
 rm zz_demo_test.go
